@@ -34,4 +34,8 @@ def block (seed : List Nat) (counter : Nat) : List UInt32 :=
 def byteStream (seed : List Nat) (nblocks : Nat) : List Nat :=
   (List.range nblocks).flatMap fun c => (block seed c).map fun w => (w.toNat % 256)
 
+/-- the same for the blocks `start … start + nblocks − 1` -/
+def byteStreamFrom (seed : List Nat) (start nblocks : Nat) : List Nat :=
+  (List.range nblocks).flatMap fun c => (block seed (start + c)).map fun w => (w.toNat % 256)
+
 end Falcon.ChaCha
